@@ -521,6 +521,9 @@ pub fn token_count(src: &str) -> u64 {
 /// case counts as a violation. Cases on the unchanged tree need 1-40 ms.
 pub const CPU_CASE_CAP_S: u64 = 10;
 pub const CPU_CASE_LIMIT_MS: u64 = 2000;
+/// Address-space cap of a batch process (the unchanged tree peaks at a few hundred MB, most of it
+/// the reserved 256 MB stack of the measuring thread).
+pub const MEMORY_CAP_BYTES: u64 = 6 << 30;
 
 pub fn budget(src: &str) -> u64 {
     let l = token_count(src);
@@ -785,6 +788,15 @@ pub fn batch_main(args: &[String]) -> i32 {
         eprintln!("usage: c20-batch <seed> <n_random> <lo> <hi> <cpu_seconds>");
         return 2;
     };
+    // An output or an intermediate structure that explodes must not take the machine along:
+    // allocation failure aborts the process, which the parent reports like a CPU kill.
+    unsafe {
+        let lim = libc::rlimit {
+            rlim_cur: MEMORY_CAP_BYTES,
+            rlim_max: MEMORY_CAP_BYTES,
+        };
+        libc::setrlimit(libc::RLIMIT_AS, &lim);
+    }
     let cases = all_cases(seed, n_random);
     let stdout = std::io::stdout();
     for index in lo..hi.min(cases.len() as u64) {
@@ -915,12 +927,19 @@ fn run_batches(seed: u64, n_random: u64, total: u64) -> Result<BatchOutcome, Str
         use std::os::unix::process::ExitStatusExt;
         if !out.status.success() {
             let sig = out.status.signal();
-            let cpu_kill = sig == Some(libc::SIGXCPU) || sig == Some(libc::SIGKILL);
+            let cpu_kill = sig == Some(libc::SIGXCPU)
+                || sig == Some(libc::SIGKILL)
+                || sig == Some(libc::SIGABRT)
+                || sig == Some(libc::SIGSEGV);
             match (cpu_kill, started) {
                 (true, Some(i)) if !done.contains(&i) => {
                     outcome.backstop.push((
                         i,
-                        format!("case {i} used more than {cpu_limit} s of CPU time (process killed by signal {sig:?})"),
+                        if sig == Some(libc::SIGABRT) || sig == Some(libc::SIGSEGV) {
+                            format!("case {i} exhausted the {} GiB address-space cap or the stack (process ended by signal {sig:?})", MEMORY_CAP_BYTES >> 30)
+                        } else {
+                            format!("case {i} used more than {cpu_limit} s of CPU time (process killed by signal {sig:?})")
+                        },
                     ));
                     if i + 1 < hi {
                         let child = std::process::Command::new(&exe)
